@@ -608,6 +608,9 @@ def r16e(ctx, P):
     ctx.floor(rid, n, 3, "empty slice literals passed to workspace functions on the search path")
 
 
+THOROUGH_FEATURES = ['r16e']
+
+
 def run(ctx, progs):
     P = progs.get("default")
     r16a(ctx, P)
